@@ -539,9 +539,10 @@ let not_found_str = "HTTP/1.0 404 Not Found\r\nContent-Type: text/plain\r\n\r\nn
 let not_found_bytes = List.map (fun c -> n_of_int (Char.code c)) (List.init (String.length not_found_str) (String.get not_found_str))
 let cold_outs : int list list ref = ref []
 type netop = NFetch of int | NUnknown of jv * int
-type netcase = { cap : int; universe : n list array; world : (int * n list * int) list; modes : int list; ops : netop list }
+type netcase = { cap : int; base : int; universe : n list array; world : (int * n list * int) list; modes : int list; ops : netop list }
 let take_netcase args =
   let (cap, r) = take1 args in
+  let (base, r) = take1 r in
   let (nu, r) = take1 r in
   let (us, r) = take_texts nu r in
   let (nw, r) = take1 r in
@@ -557,9 +558,9 @@ let take_netcase args =
                     else let (v, r) = take_jv r in let (si, r) = take1 r in (NUnknown (v, si), r)) in
       let (rest, r) = ops (n - 1) r in (o :: rest, r) in
   let (ops, _) = ops nops r in
-  { cap; universe = Array.of_list us; world; modes; ops }
+  { cap; base; universe = Array.of_list us; world; modes; ops }
 (* lib: per universe string: parsed? canonical https host ; per absolute base: per string resolved ; per world entry: body class *)
-type urlinfo = { canon : n list; https : bool; host : n list }
+type urlinfo = { canon : n list; https : bool; host : n list; uri : n list }
 let take_netlib nc lib =
   let nu = Array.length nc.universe in
   let info = Array.make nu None in
@@ -567,16 +568,19 @@ let take_netlib nc lib =
   for i = 0 to nu - 1 do
     let (ok, r1) = take1 !r in
     if ok = 0 then r := r1 else begin
-      let (c, r2) = take_text r1 in let (h, r3) = take1 r2 in let (ho, r4) = take_text r3 in
-      info.(i) <- Some { canon = c; https = (h <> 0); host = ho }; r := r4 end
+      let (c, r2) = take_text r1 in let (h, r3) = take1 r2 in let (ho, r4) = take_text r3 in let (ur, r5) = take_text r4 in
+      info.(i) <- Some { canon = c; https = (h <> 0); host = ho; uri = ur }; r := r5 end
   done;
   let res = Array.make_matrix nu nu None in
+  let extra : (n list, urlinfo) Hashtbl.t = Hashtbl.create 64 in
   for i = 0 to nu - 1 do
     let (abs, r1) = take1 !r in r := r1;
     if abs <> 0 then
       for j = 0 to nu - 1 do
         let (ok, r1) = take1 !r in r := r1;
-        if ok <> 0 then begin let (t, r2) = take_text !r in res.(i).(j) <- Some t; r := r2 end
+        if ok <> 0 then begin
+          let (t, r2) = take_text !r in let (h, r3) = take1 r2 in let (ho, r4) = take_text r3 in let (ur, r5) = take_text r4 in
+          res.(i).(j) <- Some t; Hashtbl.replace extra t { canon = t; https = (h <> 0); host = ho; uri = ur }; r := r5 end
       done
   done;
   let bodies = List.map (fun _ ->
@@ -585,29 +589,35 @@ let take_netlib nc lib =
       | 0 -> let (v, r2) = take_jv !r in r := r2; (match v with JObj kvs -> BObj kvs | _ -> BBad)
       | 1 -> BNull
       | _ -> BBad) nc.world in
-  (info, res, bodies)
+  (info, res, bodies, extra)
 let run_net args lib =
   let nc = take_netcase args in
-  let (info, res, bodies) = take_netlib nc lib in
+  let (info, res, bodies, extra) = take_netlib nc lib in
   let nu = Array.length nc.universe in
   (* canonical string -> index of some universe string with that canonical form *)
   let find_canon c = let rec go i = if i >= nu then None else (match info.(i) with Some x when x.canon = c -> Some i | _ -> go (i + 1)) in go 0 in
   let find_raw s = let rec go i = if i >= nu then None else if nc.universe.(i) = s then Some i else go (i + 1) in go 0 in
-  let info_of c = match find_canon c with Some i -> info.(i) | None -> None in
+  let info_of c = match find_canon c with Some i -> info.(i) | None -> Hashtbl.find_opt extra c in
   let is_https c = match info_of c with Some x -> x.https | None -> false in
   let host_of c = match info_of c with Some x -> x.host | None -> [] in
   let host_index c =
     (* simulator hosts are 127.0.0.(k+1):port *)
     let h = host_of c in
     match h with
-    | a :: b :: c1 :: d :: e :: f :: g :: h8 :: k :: _ when List.map int_of_n [a;b;c1;d;e;f;g;h8] = [49;50;55;46;48;46;48;46] -> int_of_n k - 49
+    | a :: b :: c1 :: d :: e :: f :: g :: h8 :: k :: _ when List.map int_of_n [a;b;c1;d;e;f;g;h8] = [49;50;55;46;48;46;48;46] ->
+      let hi = int_of_n k - 49 in
+      let expect = Printf.sprintf "127.0.0.%d:%d" (hi + 1) (nc.base + hi) in
+      let hs = String.concat "" (List.map (fun c -> String.make 1 (Char.chr (int_of_n c land 255))) h) in
+      if hi >= 0 && hi < 6 && hs = expect then hi else -1
     | _ -> -1 in
+  let uri_of c = match info_of c with Some x -> x.uri | None -> [] in
   let world_tbl = List.map2 (fun (ui, resp, fin) body ->
-      ((match info.(ui) with Some x -> x.canon | None -> []), (resp, body))) nc.world bodies in
+      (* finish mode 3 = the peer trickles slower than the deadline allows: nothing complete arrives *)
+      ((match info.(ui) with Some x -> (x.host, x.uri) | None -> ([], [])), ((if fin = 3 then [] else resp), (if fin = 3 then BBad else body)))) nc.world bodies in
   let w c =
     let hi = host_index c in
     let dial = hi >= 0 && hi < 6 && List.nth nc.modes hi = 0 in
-    match List.assoc_opt c world_tbl with
+    match List.assoc_opt (host_of c, uri_of c) world_tbl with
     | Some (resp, body) -> { e_dial = dial; e_bytes = resp; e_body = body }
     | None -> { e_dial = dial; e_bytes = not_found_bytes; e_body = BBad } in
   let resolve base v =
@@ -649,7 +659,8 @@ let run_net args lib =
         cold := !cold @ [[-1]])
     nc.ops;
   cold_outs := !cold;
-  (nc, !out, !log)
+  let https_prefix = List.map n_of_int [104;116;116;112;115;58;47;47] in
+  (nc, !out, List.map (fun c -> https_prefix @ host_of c @ uri_of c) !log)
 let op_net args lib =
   let (_, outs, log) = run_net args lib in
   List.concat outs @ (List.length log :: List.concat_map put_text log) @ [0]
